@@ -21,6 +21,10 @@ struct CWorld {
     std::string name;		// file under test
     int kind = 0;		// 0 vnadata file, 1 vnacal file, 2 YAML text
     std::string pristine;
+    // what the undamaged file loads as (truncation sweep of a network data file): a truncated file that is accepted may have
+    // lost its tail, it cannot have gained or changed anything before the place of the cut
+    struct Ref { bool have = false; int T = 0, R = 0, C = 0, F = 0; std::vector<double> f; std::vector<std::vector<cplx>> cells; } ref;
+    bool prefix_check = false, capture_ref = false;
     explicit CWorld(Ctx &ctx) : c(ctx) {}
 };
 
@@ -195,6 +199,31 @@ static void load_and_check(CWorld &w, const LoadFaults &lf, const std::string &c
 	    if (vnadata_init(v, VPT_S, 1, 1, 1) != 0) c.violate("model", "vnadata_load:usable", "destination of a failed load cannot be re-initialised (" + ctxmsg + ")");
 	    lc.done();
 	}
+	if (!c.violated && rc == 0 && (w.prefix_check || w.capture_ref) && lf.eio_at < 0 && lf.eof_at < 0) {
+	    // capture (the undamaged file) or compare (a truncated one)
+	    CWorld::Ref cur;
+	    {
+		LibCall lc(c);
+		cur.have = true; cur.T = vnadata_get_type(v); cur.R = vnadata_get_rows(v); cur.C = vnadata_get_columns(v); cur.F = vnadata_get_frequencies(v);
+		for (int f = 0; f < cur.F; ++f) { cur.f.push_back(vnadata_get_frequency(v, f)); std::vector<cplx> row; for (int i = 0; i < cur.R; ++i) for (int j = 0; j < cur.C; ++j) row.push_back(vnadata_get_cell(v, f, i, j)); cur.cells.push_back(row); }
+		lc.done();
+	    }
+	    if (w.capture_ref) w.ref = cur;
+	    else if (w.ref.have && cur.F > 0) {
+		auto same = [](cplx a, cplx b) { return same_num(__real__ a, __real__ b) && same_num(__imag__ a, __imag__ b); };
+		if (cur.T != w.ref.T || cur.R != w.ref.R || cur.C != w.ref.C) c.count("probe.truncated_file_reads_as_another_shape");	// (the head of a Touchstone 1 file of n ports can be a whole file of fewer ports)
+		else if (cur.F > w.ref.F) c.violate("model", "vnadata_load:truncated", strf("a truncated file loads with %d frequencies, the whole file with %d (%s)", cur.F, w.ref.F, ctxmsg.c_str()));
+		else for (int f = 0; f < cur.F && !c.violated; ++f) {
+		    int diff = 0;
+		    for (size_t q = 0; q < cur.cells[(size_t)f].size(); ++q) if (!same(cur.cells[(size_t)f][q], w.ref.cells[(size_t)f][q])) ++diff;
+		    bool last = f == cur.F - 1;
+		    // (the last number before the cut may have lost digits: one cell of the last row, or its frequency, may differ)
+		    if ((!last && (diff > 0 || cur.f[(size_t)f] != w.ref.f[(size_t)f])) || (last && diff > 1))
+			c.violate("model", "vnadata_load:truncated", strf("a truncated file that is accepted differs from the whole file in %d cell(s) of row %d of %d before the cut (%s)", diff, f, cur.F, ctxmsg.c_str()));
+		}
+		if (!c.violated) c.count("probe.truncated_file_is_a_prefix");
+	    }
+	}
 	if (!c.violated && rc == 0) {
 	    c.count("probe.accepted");
 	    int T, R, C, F;
@@ -361,6 +390,13 @@ static void run_op(CWorld &w, const Op &op)
 	long from = std::max<long>(0, op.I(1)), to = op.I(2) < 0 ? n : std::min<long>(n, op.I(2));
 	long step = std::max<long>(1, op.I(3));
 	int variant = (int)op.I(4);
+	if (family == 0 && w.kind == 0) {	// reference: the undamaged file
+	    w.ref = CWorld::Ref(); w.prefix_check = false; w.capture_ref = true;
+	    simfs()[w.name] = pristine;
+	    load_and_check(w, LoadFaults(), "undamaged file (reference of the truncation sweep)", 0);
+	    w.capture_ref = false;
+	    w.prefix_check = w.ref.have;
+	}
 	for (long off = from; off <= to && !c.violated; off += step) {
 	    g_sub_index = off;
 	    LoadFaults lf;
@@ -377,6 +413,7 @@ static void run_op(CWorld &w, const Op &op)
 		}
 	    }
 	}
+	w.prefix_check = false;
 	c.count(strf("sweep.family%d.files", family));
 	c.nontrivial = true;
 	simfs()[w.name] = pristine;
